@@ -68,6 +68,9 @@ func (c *compression) compress(req *http.Request, resp *http.Response) bool {
 	resp.Header.Set(keyContentEncoding, "gzip")
 	resp.Header.Add(keyVary, keyContentEncoding)
 
+	// The length of the compressed body is unknown, the length of the
+	// original body must not be used to read the compressed one.
+	resp.ContentLength = -1
 	resp.Body = readers.NewGZipCompressReader(resp.Body)
 	return true
 }
